@@ -127,6 +127,15 @@ def make_cases(rng, _n):
     for pat, ok in (("Len::<Meters> { v: 1, .. }", True), ("Len::<Feet> { v: 1, .. }", False), ("Len { v: 1, .. }", True)):
         add(gdecl, "Len<Meters>", "Len::<Meters> { v: 1, unit: std::marker::PhantomData }", adt("Len", ["v", "unit"], ["(int 1)", adt("PhantomData", [], [])]), pat,
             "phantom-parameter-%s" % ("same-instantiation" if ok else "other-instantiation"), ok)
+    # arities again with the asserted expression written as a tuple LITERAL in the invocation (not a variable holding the tuple)
+    for n in range(2, 5):
+        for m in range(2, 6):
+            for surplus in ("1", "_"):
+                pat = "(%s)" % ", ".join(["1"] * min(m, n) + [surplus] * max(0, m - n))
+                c_before = len(cases)
+                add("", "(%s)" % "".join("i32, " for _ in range(n)), "(%s)" % "".join("1, " for _ in range(n)), "(tuple %s)" % " ".join("(int 1)" for _ in range(n)), pat,
+                    "tuple-literal-root-arity", m == n)
+                cases[c_before].text = "(%s), %s" % (", ".join(["1i32"] * n), pat)
     vdecls = "#[derive(Debug)] pub enum E { V { w: i32, h: i32 }, U }"
     add(vdecls, "E", "E::V { w: 1, h: 1 }", adt("V", ["w", "h"], ["(int 1)", "(int 1)"]), "E::V", "bare-path-on-struct-variant", False)
     add(vdecls, "E", "E::V { w: 1, h: 1 }", adt("V", ["w", "h"], ["(int 1)", "(int 1)"]), "E::V()", "empty-parens-on-struct-variant", False)
